@@ -7,6 +7,7 @@
 import PyodaModel.Calendar
 import PyodaProofs.Basic
 import PyodaProofs.C01Lemmas
+import PyodaProofs.C01Instances
 
 namespace Pyoda.C01
 open Pyoda Pyoda.Calendar
@@ -304,5 +305,43 @@ theorem viaPacked_id (h : WF c) (ord : Int) (ho : 0 ≤ ord ∧ ord < 64) (y m d
   obtain ⟨a, b, c', _⟩ := pack_unpack y m dd ord (by omega) (by omega) (by omega) ho
   unfold viaPacked
   simp only [a, b, c']
+
+/-! ## the calendars of the library (instances proved in C01Instances*.lean) -/
+
+/-- ISO / Gregorian: every day of [-4371222, 2932896] (years -9998 … 9999) round-trips through a valid date -/
+theorem gregorian_days_ymd_days (d : Int) (h1 : -4371222 ≤ d) (h2 : d ≤ 2932896) :
+    ∃ y m dd, fromDays Greg.cal d = .ok (y, m, dd) ∧ validate Greg.cal y m dd = .ok () ∧
+      daysOfYmd Greg.cal y m dd = .ok d :=
+  days_ymd_days greg_wf d h1 h2
+
+theorem gregorian_ymd_days_ymd (y m dd : Int) (hv : validate Greg.cal y m dd = .ok ()) :
+    ∃ d, daysOfYmd Greg.cal y m dd = .ok d ∧ -4371222 ≤ d ∧ d ≤ 2932896 ∧ fromDays Greg.cal d = .ok (y, m, dd) :=
+  ymd_days_ymd greg_wf y m dd hv
+
+theorem gregorian_out_of_range_rejected (d : Int) (h : d < -4371222 ∨ d > 2932896) :
+    fromDays Greg.cal d = .error .valueError :=
+  out_of_range_rejected greg_wf d h
+
+theorem julian_days_ymd_days (d : Int) (h1 : -4370934 ≤ d) (h2 : d ≤ 2932604) :
+    ∃ y m dd, fromDays Jul.cal d = .ok (y, m, dd) ∧ validate Jul.cal y m dd = .ok () ∧
+      daysOfYmd Jul.cal y m dd = .ok d :=
+  days_ymd_days jul_wf d h1 h2
+
+theorem coptic_days_ymd_days (d : Int) (h1 : -615558 ≤ d) (h2 : d ≤ 2932845) :
+    ∃ y m dd, fromDays Copt.cal d = .ok (y, m, dd) ∧ validate Copt.cal y m dd = .ok () ∧
+      daysOfYmd Copt.cal y m dd = .ok d :=
+  days_ymd_days copt_wf d h1 h2
+
+/-! non-vacuity: the hypotheses hold on concrete, non-trivial values and the functions compute real dates -/
+example : fromDays Greg.cal 19782 = .ok (2024, 2, 29) := by decide
+example : daysOfYmd Greg.cal 2024 2 29 = .ok 19782 := by decide
+example : daysOfYmd Greg.cal 2023 2 29 = .error .valueError := by decide
+example : fromDays Greg.cal (-4371222) = .ok (-9998, 1, 1) ∧ fromDays Greg.cal 2932896 = .ok (9999, 12, 31) := by decide
+example : fromDays Greg.cal 2932897 = .error .valueError := by decide
+example : fromDays Jul.cal 19782 = .ok (2024, 2, 16) := by decide
+example : fromDays Copt.cal 19782 = .ok (1740, 6, 21) := by decide
+example : cmpYmd Greg.cal (2024, 2, 29) (2024, 3, 1) < 0 := by decide
+example : absoluteYear Greg.cal (yearOfEra Greg.cal (-5)) (eraOf Greg.cal (-5)) = .ok (-5) := by decide
+example : unpackYear (packYmdc (-9998) 12 31 1) = -9998 := by decide
 
 end Pyoda.C01
